@@ -223,7 +223,14 @@ def run(ctx):
         else:
             d = first_diff(rp["dump"], rf["dump"])
             if d:
-                ctx.violation(classify_dump_diff(d, c), f"{cls}: re-serialisation differs - {d}", case)
+                mech = classify_dump_diff(d, c)
+                try:
+                    mf = modelgen.discover_models()[c["cls"]].model_fields
+                    if any(f.alias and f.alias != a and a in c["wire"] and f.alias in c["wire"] for a, f in mf.items()):
+                        mech = "python_named_member_next_to_aliased_member_differs"
+                except Exception:  # noqa
+                    pass
+                ctx.violation(mech, f"{cls}: re-serialisation differs - {d}", case)
         ctx.record(case, shape=None, nontrivial=bool(c["wire"]), cls="model:" + cls,
                    sample={"cls": c["cls"], "wire": c["wire"], "tree": rp.get("tree")})
     ctx.require_reached("cases_compared")
